@@ -551,6 +551,10 @@ class HedSchema(HedSchemaBase):
                 next_index = len(working_tag)
             parent_name = working_tag[:next_index]
             parent_entry = self._get_tag_entry(parent_name)
+            # A '#' placeholder is a schema node only as the last term (the direct lookup of the caller).
+            # Followed by more text it is part of the value or extension, like any other unknown term.
+            if parent_entry and parent_entry.name.endswith("/#"):
+                parent_entry = None
 
             if not parent_entry:
                 # We haven't found any tag at all yet
